@@ -1,5 +1,7 @@
 """C02 (Engine B part) - zone selection falls back to all zones when a range index is
 unavailable or declares itself unselective."""
+import json
+import os
 import re
 
 import z3
@@ -53,12 +55,383 @@ def obligations(ctx):
             r.status = "inconclusive"
             r.notes.append("apply_surf_only call unreachable in the encoding")
 
+    out += no_answer_fallback(ctx)
+    out += hydrate_all(ctx)
+    out += bool_string_view(ctx)
+    out += typed_buffers(ctx)
     out += or_expansion(ctx)
     # the range test of the temporal pruner and the zone-level NOT are part of "the predicate selects the same rows on disk"
     from . import c08
     for r_ in c08.temporal_minmax(ctx):
         r_.id = "B-3"
         out.append(r_)
+    return out
+
+
+HYDRATE_SETUP = ('DEFINE t FIELDS { "n": "int", "o": "int | null" }; ' +
+                 "; ".join('STORE t FOR c PAYLOAD {"n": %d, "o": %s}' % (k, v) for k, v in enumerate("4,1,0,7,7,null".split(","))))
+HYDRATE_QUERIES = ["QUERY t WHERE o > -5", "QUERY t WHERE o >= 0", "QUERY t WHERE n >= 0"]
+
+
+def replay_hydrate(ctx):
+    """two segments of three events; the second holds a null in `o` and so has no range filter for it: a range
+    predicate selects zones through the filter in one segment and through the all-zones fallback in the other"""
+    from vlib import history
+    from .c17 import native_binary
+    binary = native_binary(ctx.log)
+    if binary is None:
+        return False, "native replay program did not build"
+    one = history.memory_vs_segment(binary, HYDRATE_SETUP, HYDRATE_QUERIES, capacity=50)
+    two = history.memory_vs_segment(binary, HYDRATE_SETUP, HYDRATE_QUERIES, capacity=3)
+    short = lambda rows: None if rows is None else sorted(int(json.loads(dict(r).get("n"))) for r in rows)
+    if any(m is None for (_q, m, _s) in one):
+        return False, "the engine did not answer the in-memory queries"
+    diffs = [f"{q}: events n={short(m)} while in memory, n={short(s)} from two flushed segments"
+             for (q, m, _s1), (_q2, _m2, s) in zip(one, two) if m != s]
+    return bool(diffs), "; ".join(diffs) if diffs else "memory and two-segment answers agree on " + ", ".join(HYDRATE_QUERIES)
+
+
+def hydrate_all(ctx):
+    """ZoneHydrator::hydrate must load column values into every candidate zone. Zones come with a uid (all-zones
+    fallbacks) or without one (index pruners build them with CandidateZone::new); the hydrator groups zones by uid."""
+    push_counts = lambda ev, E: bool(re.search(r"Vec::<usize>::push$|Vec::push$", ev.func)) and \
+        "or_default" in " ".join(sym.describe(a) for a in ev.args[:1])
+    ghosts = {"evuid": ghost(r"QueryPlan::event_type_uid$")}
+    needle = "zone-zone_hydrator-{impl#0}-hydrate-{closure#0}."
+    E, err = ctx.load(needle, ghosts=ghosts, counters={"grouped": push_counts})
+    r = oblig.Result("B-5", "ZoneHydrator::hydrate: a candidate zone that carries no uid (built by an index pruner) is still hydrated "
+                            "when other candidate zones of the same query carry one (built by an all-zones fallback): whenever the "
+                            "per-uid branch is taken although some zone had no uid, the zones without one are loaded with the "
+                            "query's event-type uid - a zone left without column values is skipped by the row filter and its "
+                            "events vanish from the answer")
+    r.functions = ["ZoneHydrator::hydrate"]
+    r.bounds = f"classification loop unrolled {ctx.k}x (zones: up to {ctx.k}, each with or without uid), calls opaque, awaited futures ready"
+    out = [r]
+    if E is None:
+        r.status = "inconclusive"
+        r.notes.append(err)
+        return out
+    q = ctx.q
+    uids = [e for e in oblig.events(E, r"CandidateZone::uid$")]
+    empties = oblig.events(E, r"HashMap::<.*>::is_empty$|HashMap::is_empty$")
+    loads = oblig.events(E, r"ZoneValueLoader(::<.*>)?::load_zone_values$")
+    if not (oblig.need_anchor(r, uids, "CandidateZone::uid in the classification loop")
+            and oblig.need_anchor(r, empties, "zones_by_uid.is_empty()")
+            and oblig.need_anchor(r, loads, "ZoneValueLoader::load_zone_values")):
+        return out
+    r.nontrivial = True
+    # loads whose loader was built from the query's event-type uid
+    def from_event_type(ev):
+        return "event_type_uid" in " ".join(E.trace(ev.args[0], ev.env, depth=8)) if ev.args else False
+    typed_loads = [e for e in loads if from_event_type(e)]
+    # Decided per classification-loop iteration u: under "this zone has no uid" (disc(uid()) == 0) and "some other zone
+    # was grouped under its uid" (ghost counter > 0, and zones_by_uid.is_empty() answers accordingly), is a load with a
+    # loader built from the query's event-type uid reachable at all?  (reachability, not coverage: collections are opaque)
+    witness = None
+    cons = [(E.sym(e.dest_label, "bool") == (e.env.get("#grouped") == 0)) for e in empties
+            if E.sym(e.dest_label, "bool") is not None and e.env.get("#grouped") is not None]
+    if len(cons) != len(empties):
+        r.status = "inconclusive"
+        r.notes.append("zones_by_uid.is_empty() result not resolved")
+        return out
+    mixed_seen = False
+    for u in uids:
+        du = z3.BitVec(f"disc({u.site})", 64)
+        # the mixed situation itself must be reachable at a return (else the obligation is vacuous for this iteration)
+        mixed = [reach for (_n, reach, env) in E.returns if env.get("#grouped") is not None
+                 and q.check(reach, u.reach, du == 0, env.get("#grouped") != 0, *cons, domain=E.domain)[0] == z3.sat]
+        r.queries += len(E.returns)
+        if not mixed:
+            continue
+        mixed_seen = True
+        hydrated = False
+        for e in typed_loads:
+            n = e.env.get("#grouped")
+            if n is None:
+                continue
+            res, _m = q.check(e.reach, u.reach, du == 0, n != 0, *cons, domain=E.domain)
+            r.queries += 1
+            if res == z3.sat:
+                hydrated = True
+                break
+        if not hydrated:
+            res, model = q.check(mixed[0], u.reach, du == 0, *cons, domain=E.domain)
+            witness = (u, model)
+            break
+    if not mixed_seen and not witness:
+        r.status = "inconclusive"
+        r.notes.append("a return with both uid-less and grouped zones is not reachable in the encoding")
+        return out
+    if witness:
+        u, model = witness
+        ok, text = replay_hydrate(ctx)
+        r.witness = {"what": "a candidate zone without uid next to one with a uid: the per-uid branch hydrates only the zones "
+                             "that carry a uid, the other keeps no column values and the row filter skips it"
+                             + (" - end to end: " + text if ok else ""),
+                     "span": f"{u.span[0]}:{u.span[1]}" if u.span else None, "call": "CandidateZone::uid",
+                     "path": E.path_of_model(model)[-12:], "model": oblig.model_summary(E, model), "native": text}
+        r.status = "violated" if ok else "inconclusive"
+        if not ok:
+            r.notes.append("uid-less zones can stay unhydrated but the end-to-end replay shows no difference: " + text)
+    return out
+
+
+BOOL_SETUP = ('DEFINE t FIELDS { "b": "bool", "n": "int" }; ' +
+              "; ".join('STORE t FOR c PAYLOAD {"b": %s, "n": %d}' % (v, k) for k, v in enumerate(["true", "false", "true"])))
+BOOL_QUERIES = ["QUERY t WHERE b = true", "QUERY t WHERE b = false", "QUERY t WHERE b != true", 'QUERY t WHERE b = "true"',
+                "QUERY t WHERE n >= 1 AND b = true", "QUERY t WHERE n >= 0"]
+
+
+def replay_bool(ctx):
+    from vlib import history
+    from .c17 import native_binary
+    binary = native_binary(ctx.log)
+    if binary is None:
+        return False, "native replay program did not build"
+    res = history.memory_vs_segment(binary, BOOL_SETUP, BOOL_QUERIES)
+    short = lambda rows: None if rows is None else sorted(int(json.loads(dict(r).get("n"))) for r in rows)
+    if any(m is None for (_q, m, _s) in res):
+        return False, "the engine did not answer the in-memory queries"
+    diffs = [f"{q}: events n={short(m)} from memory, n={short(s)} after FLUSH" for (q, m, s) in res if m != s]
+    return bool(diffs), "; ".join(diffs) if diffs else "memory and segment answers agree on " + ", ".join(BOOL_QUERIES)
+
+
+def bool_string_view(ctx):
+    """A bool predicate reaches the row filter as a StringCondition over "true" / "false" (the builder has no bool
+    condition); on a segment it reads the cell through PreparedAccessor::get_str_at -> ColumnValues::get_str_at.
+    A flushed bool column is typed (bitmap payload, no string ranges). Composition of two per-function facts."""
+    r = oblig.Result("B-6", "the string view row conditions get of a flushed column answers for typed bool cells: either "
+                            "ColumnValues::get_str_at itself consults the typed bool payload, or PreparedAccessor::get_str_at "
+                            "(with its closures) falls back to ColumnValues::get_bool_at and returns a value derived from it - "
+                            "otherwise `b = true`, `b != true` match no flushed row")
+    r.functions = ["ColumnValues::get_str_at", "PreparedAccessor::get_str_at (+ closures)", "StringCondition::evaluate_at"]
+    r.bounds = "every path of the three bodies (loop-free); HashMap lookup and slice access opaque"
+    out = [r]
+    q = ctx.q
+    # the condition reads the cell through the accessor's string view
+    cond_ok = False
+    for f in ctx.find("filter-condition-{impl#"):
+        if "-evaluate_at." in f:
+            txt = open(f).read()
+            if re.search(r"_1: &(?:[\w:]+::)?StringCondition\b", txt[:4000]) and "get_str_at" in txt:
+                cond_ok = True
+                break
+    if not cond_ok:
+        r.status = "inconclusive"
+        r.notes.append("StringCondition::evaluate_at no longer reads the cell through get_str_at: the obligation does not describe the code")
+        return out
+
+    def bool_reads(needle, label):
+        """(found body, reachable get_bool_at / typed_bool read whose result flows to the return)"""
+        hits, bodies = False, 0
+        for f in sorted(ctx.find(needle)):
+            E, err = ctx.load_file(f) if hasattr(ctx, "load_file") else (None, None)
+            if E is None:
+                E, err = ctx.load(os.path.basename(f).split(".2-2-")[0].replace("snel_db.engine-core-", "") + ".", ghosts={})
+            if E is None:
+                continue
+            bodies += 1
+            evs = oblig.events(E, r"ColumnValues::get_bool_at$")
+            for e in evs:
+                res, _ = q.check(e.reach, domain=E.domain)
+                r.queries += 1
+                if res != z3.sat:
+                    continue
+                for (_n, reach, env) in E.returns:
+                    if "get_bool_at" in " ".join(E.trace(env.get(0), env, depth=10)):
+                        hits = True
+            # a direct read of the typed_bool field in ColumnValues::get_str_at
+            if label == "column":
+                fields = E.structs._fields("ColumnValues") or []
+                if "typed_bool" in fields:
+                    idx = fields.index("typed_bool")
+                    if re.search(r"\(\*_1\)\.%d\b" % idx, open(f).read()):
+                        hits = True
+        return bodies, hits
+
+    nb_col, col = bool_reads("column-column_values-{impl#0}-get_str_at.", "column")
+    nb_acc, acc = bool_reads("filter-condition-{impl#1}-get_str_at", "accessor")
+    if nb_col == 0 or nb_acc == 0:
+        r.status = "inconclusive"
+        r.notes.append(f"bodies not found (ColumnValues::get_str_at: {nb_col}, PreparedAccessor::get_str_at: {nb_acc})")
+        return out
+    r.nontrivial = True
+    r.notes.append(f"ColumnValues::get_str_at consults the bool payload: {col}; PreparedAccessor::get_str_at falls back to get_bool_at: {acc}")
+    if not (col or acc):
+        ok, text = replay_bool(ctx)
+        r.witness = {"what": "neither ColumnValues::get_str_at nor PreparedAccessor::get_str_at reads the typed bool payload: the string "
+                             "condition built for a bool predicate sees None for every cell of a flushed bool column"
+                             + (" - end to end: " + text if ok else ""),
+                     "span": "src/engine/core/filter/condition.rs", "call": "PreparedAccessor::get_str_at", "path": [], "model": {},
+                     "native": text}
+        r.status = "violated" if ok else "inconclusive"
+        if not ok:
+            r.notes.append("no bool read on the string view but the end-to-end replay shows no difference: " + text)
+    return out
+
+
+BUFFER_SETUP = ('DEFINE t FIELDS { "u": "u64 | null", "f": "float | null", "i": "int | null", "n": "int" }; ' +
+                "; ".join('STORE t FOR c PAYLOAD {"u": %s, "f": %s, "i": %s, "n": %d}' % (u, f, i, k)
+                          for k, (u, f, i) in enumerate([("null", "null", "null"), ("3", "3.5", "-3"), ("4", "4.5", "4")])))
+BUFFER_QUERIES = ["QUERY t WHERE u >= 3", "QUERY t WHERE i >= -3", "QUERY t WHERE u < 4", "QUERY t WHERE n >= 0"]
+
+
+def replay_buffers(ctx):
+    """optional numeric fields whose first stored row is null, single top-level comparison (the SIMD buffer path)"""
+    from vlib import history
+    from .c17 import native_binary
+    binary = native_binary(ctx.log)
+    if binary is None:
+        return False, "native replay program did not build"
+    res = history.memory_vs_segment(binary, BUFFER_SETUP, BUFFER_QUERIES)
+    short = lambda rows: None if rows is None else sorted(int(json.loads(dict(r).get("n"))) for r in rows)
+    if any(m is None for (_q, m, _s) in res):
+        return False, "the engine did not answer the in-memory queries"
+    diffs = [f"{q}: events n={short(m)} from memory, n={short(s)} after FLUSH" for (q, m, s) in res if m != s]
+    return bool(diffs), "; ".join(diffs) if diffs else "memory and segment answers agree on " + ", ".join(BUFFER_QUERIES)
+
+
+def typed_buffers(ctx):
+    """evaluate_numeric_simd asks the accessor for a (values, validity) buffer per numeric lane and treats None as
+    "this column is not of that lane"; a None for a column that does hold values of the lane clears the whole zone."""
+    r = oblig.Result("B-7", "PreparedAccessor::get_{i64,u64,f64}_buffer_with_validity answer None only when the column is absent or "
+                            "the whole row range was examined and no row held a value of the lane - never because of one "
+                            "particular row (a null in the first row of a zone), which would make the SIMD filter drop the zone")
+    r.functions = []
+    r.bounds = f"row loop unrolled {ctx.k}x; HashMap lookup and per-row getters opaque"
+    out = [r]
+    q = ctx.q
+    for lane in ("i64", "u64", "f64"):
+        needle = "filter-condition-{impl#0}-get_%s_buffer_with_validity." % lane
+        E, err = ctx.load(needle, ghosts={})
+        if E is None:
+            r.status = "inconclusive"
+            r.notes.append(err)
+            return out
+        r.functions.append(f"PreparedAccessor::get_{lane}_buffer_with_validity")
+        gets = oblig.events(E, r"HashMap(::<.*>)?::get(::<.*>)?$")
+        nexts = oblig.events(E, r"Iterator>?::next$")
+        cells = oblig.events(E, r"ColumnValues::get_%s_at$" % lane)
+        if not (oblig.need_anchor(r, gets, "columns.get(field)") and oblig.need_anchor(r, nexts, "row loop")
+                and oblig.need_anchor(r, cells, f"get_{lane}_at")):
+            return out
+        present = z3.BitVec(f"disc({gets[0].site})", 64) == 1
+        done = z3.Or([z3.And(e.reach, z3.BitVec(f"disc({e.site})", 64) == 0) for e in nexts])
+        valid = z3.Or([z3.And(e.reach, z3.BitVec(f"disc({e.site})", 64) == 1) for e in cells
+                       if e.args and "Iterator::next" in sym.describe(e.args[-1])] or [z3.BoolVal(False)])
+        for (node, reach, env) in E.returns:
+            d = E.disc_term(env.get(0))
+            if d is None:
+                r.status = "inconclusive"
+                r.notes.append("return value not resolved")
+                return out
+            for what, cond in (("before the row range was examined to its end", z3.Not(done)),
+                               ("although a row of the range held a value of the lane", valid)):
+                res, model = q.check(reach, d == 0, present, cond, domain=E.domain)
+                r.queries += 1
+                if res == z3.sat:
+                    ok, text = replay_buffers(ctx)
+                    r.witness = {"what": f"get_{lane}_buffer_with_validity answers None for a column that is present {what}: "
+                                         f"evaluate_numeric_simd then takes the column for another lane and clears the zone's keep-mask"
+                                         + (" - end to end: " + text if ok else ""),
+                                 "span": None, "call": f"get_{lane}_buffer_with_validity", "path": E.path_of_model(model)[-10:],
+                                 "model": oblig.model_summary(E, model), "native": text}
+                    r.status = "violated" if ok else "inconclusive"
+                    if not ok:
+                        r.notes.append("a row-dependent None is reachable but the end-to-end replay shows no difference: " + text)
+                    return out
+                if res != z3.unsat:
+                    r.status = "inconclusive"
+                    r.notes.append("solver returned unknown")
+                    return out
+    r.nontrivial = True
+    return out
+
+
+PRUNERS = [
+    ("temporal", r"TemporalPruner::<?.*apply_temporal_only$|TemporalPruner::apply_temporal_only$"),
+    ("enum", r"EnumPruner.*::apply$"),
+    ("zxf", r"XorPruner::<?.*apply_zone_index_only$|XorPruner::apply_zone_index_only$"),
+    ("presence", r"XorPruner::<?.*apply_presence_only$|XorPruner::apply_presence_only$"),
+    ("surf", r"RangePruner::<?.*apply_surf_only$|RangePruner::apply_surf_only$"),
+]
+
+
+NOANSWER_SETUP = ('DEFINE t FIELDS { "i": "int", "s": "string", "e": ["red", "green"], "o": "int | null", "d": "datetime" }; '
+                  'STORE t FOR c0 PAYLOAD {"i": 1, "s": "apple", "e": "red", "o": 5, "d": 1700000000}; '
+                  'STORE t FOR c1 PAYLOAD {"i": -2, "s": "10", "e": "green", "o": null, "d": 1700000001}; '
+                  'STORE t FOR c0 PAYLOAD {"i": 0, "s": "", "e": "red", "o": 0, "d": 1700000002}')
+NOANSWER_QUERIES = ['QUERY t WHERE i != 1', 'QUERY t WHERE s != "apple"', 'QUERY t WHERE e != "blue"', 'QUERY t WHERE o != 5',
+                    'QUERY t WHERE d != 1700000000', 'QUERY t WHERE i = 1', 'QUERY t WHERE e != "red"']
+
+
+def replay_no_answer(ctx):
+    """the same predicates over the same three events, answered from the memtable and then from the flushed segment"""
+    from vlib import history
+    from .c17 import native_binary
+    binary = native_binary(ctx.log)
+    if binary is None:
+        return False, "native replay program did not build"
+    res = history.memory_vs_segment(binary, NOANSWER_SETUP, NOANSWER_QUERIES)
+    short = lambda rows: None if rows is None else sorted(dict(r).get("i") for r in rows)
+    diffs = [f"{q}: rows with i={short(m)} from memory, i={short(s)} after FLUSH" for (q, m, s) in res if m != s]
+    if any(m is None for (_q, m, _s) in res):
+        return False, "the engine did not answer the in-memory queries: " + "; ".join(q for (q, m, _s) in res if m is None)
+    return bool(diffs), "; ".join(diffs) if diffs else "memory and segment answers agree on " + ", ".join(NOANSWER_QUERIES)
+
+
+def no_answer_fallback(ctx):
+    """Every index strategy: a pruner that has no answer (None: operator the index cannot serve such as
+    !=, literal of another type, artefact missing) must lead to all zones of the segment, which the row
+    filter then decides - never to an empty candidate list."""
+    ghosts = {"allzones": ghost(r"create_all_zones_for_segment_from_meta_cached|collect_zones_for_scope")}
+    for name, rx in PRUNERS:
+        ghosts[name] = ghost(rx)
+    b = Builder(ctx, "selector-field_selector-{impl#1}-select_for_segment.", "FieldSelector::select_for_segment", ghosts)
+    E, q = b.E, ctx.q
+    r = b.mk("B-4", "every IndexStrategy arm of FieldSelector::select_for_segment: when the arm's pruner returns None "
+                    "(operator the index cannot answer, e.g. !=; literal it cannot encode; artefact missing) the "
+                    "selector returns all zones of the segment for the row filter to decide - never an empty list")
+    out = [b.results["B-4"]]
+    if not r:
+        return out
+    found = 0
+    for name, rx in PRUNERS:
+        evs = [e for e in E.events if re.search(rx, e.func)]
+        if not evs:
+            continue
+        found += 1
+        sd = z3.BitVec(f"disc({evs[0].site})", 64)
+        for (node, reach, env) in E.returns:
+            g, called = env.get("@allzones"), env.get("@" + name)
+            if g is None or called is None:
+                r.status = "inconclusive"
+                r.notes.append("ghosts not resolved")
+                continue
+            res, model = q.check(reach, called, sd == 0, z3.Not(g), domain=E.domain)
+            r.queries += 1
+            if res == z3.sat:
+                r.status = "violated"
+                r.witness = {"what": f"{evs[0].func.split('::')[-1]} returned None (no answer) but the selector returns "
+                                     f"without collecting all zones: the segment contributes no rows to the query",
+                             "pruner": name, "span": None, "call": "return", "path": E.path_of_model(model),
+                             "model": oblig.model_summary(E, model)}
+                r.bad = getattr(r, "bad", []) + [name]
+                break
+    r.nontrivial = found >= 4
+    if found < 4 and r.status == "holds":
+        r.status = "inconclusive"
+        r.notes.append(f"only {found} pruner calls found in select_for_segment")
+    if getattr(r, "bad", None):
+        r.notes.append("arms that drop the segment: " + ", ".join(r.bad))
+        ok, text = replay_no_answer(ctx)
+        r.witness["native"] = text
+        r.witness["arms"] = r.bad
+        if ok:
+            r.witness["what"] += " - end to end: " + text
+        else:
+            r.status = "inconclusive"
+            r.notes.append("a no-answer arm returns no zones but the end-to-end replay did not show a difference: " + text)
     return out
 
 
